@@ -106,6 +106,15 @@ class C12Machine(RuleBasedStateMachine):
     def fd_read(self, fd, lens):
         self.ex.fd_read(fd, lens)
 
+    @rule(which=st.sampled_from([0, 1, 2]), bufs=BUFS, lens=LENS, write=st.booleans())
+    def std_stream_io(self, which, bufs, lens, write):
+        # descriptors 0-2 are the host's standard streams (files here: 0 read-only, 1 and 2 write-only): the transfers that work
+        # and the ones POSIX refuses (write to 0, read from 1 / 2: EBADF)
+        if write:
+            self.ex.fd_write(which, bufs)
+        else:
+            self.ex.fd_read(which, lens)
+
     @rule(fd=fds, lens=LENS, offset=OFFSETS)
     def fd_pread(self, fd, lens, offset):
         self.ex.fd_pread(fd, lens, offset)
